@@ -200,7 +200,9 @@ VERIF_TARGET(c02_spend, nullptr, 48, 1000,
                 TxGen::Made m2;
                 m2.ins = {p.made[pos].ins[s.index(p.made[pos].ins.size())]};
                 std::vector<CTxOut> outs{CTxOut(m2.ins[0].second.value, sim.keys.Script(SpkType::ANYONE_P2WSH))};
-                CTransactionRef conflict = tg.Remake(m2, outs);
+                // nSequence 0xfffffffe (still final: nLockTime 0, BIP68 disable bit set) keeps this tx different from every generated one:
+                // an identical twin would be a duplicated transaction (merkle-mutation class), not a double spend
+                CTransactionRef conflict = tg.Remake(m2, outs, 0, 0xfffffffe);
                 size_t at = 2 + pos + s.index(bad.vtx.size() - 1 - pos); // somewhere after tx `pos`
                 bad.vtx.insert(bad.vtx.begin() + std::min(at, bad.vtx.size()), conflict);
                 want = "bad-txns-inputs-missingorspent"; label = "two-txs-one-outpoint";
